@@ -687,6 +687,9 @@ void h_load_clock_offsets(void)
 
 /* ------------------------------- init_offsets ------------------------------- */
 #ifdef H_INIT_OFFSETS
+/* replay witnesses: looms and their host byte, streams (thread stream? which loom?), table lines (host byte, median) */
+int w_io_nl, w_io_h0, w_io_h1, w_io_n, w_io_lpt0, w_io_lpt1, w_io_lpt2, w_io_lo0, w_io_lo1, w_io_lo2, w_io_con, w_io_e0, w_io_e1;
+long w_io_m0, w_io_m1;
 void h_init_offsets(void)
 {
 	static struct system sys; static struct trace trace;
@@ -731,6 +734,13 @@ void h_init_offsets(void)
 		char h = e == 0 ? g1_E0.name[0] : g1_E1.name[0];
 		if (!(LOOM(0)->hostname[0] == h || (nl == 2 && LOOM(1)->hostname[0] == h))) table_ok = 0;
 	}
+	/* (the group runs with --slice-formula: a plain store to a never-read ghost would be sliced out of the
+	 * trace, so the witnesses are bound like WBIND does: free value, assumed equal to the input it names) */
+#define WSET(w, v) do { w = nondet_int(); __CPROVER_assume(w == (v)); } while (0)
+#define WSETL(w, v) do { w = nondet_long(); __CPROVER_assume(w == (v)); } while (0)
+	WSET(w_io_nl, nl); WSET(w_io_h0, LOOM(0)->hostname[0]); WSET(w_io_h1, LOOM(1)->hostname[0]); WSET(w_io_n, n);
+	WSET(w_io_lpt0, islpt[0]); WSET(w_io_lpt1, islpt[1]); WSET(w_io_lpt2, islpt[2]); WSET(w_io_lo0, lo[0]); WSET(w_io_lo1, lo[1]); WSET(w_io_lo2, lo[2]);
+	WSET(w_io_con, g_co_n); WSET(w_io_e0, g1_E0.name[0]); WSET(w_io_e1, g1_E1.name[0]); WSETL(w_io_m0, (int64_t) g1_E0.median); WSETL(w_io_m1, (int64_t) g1_E1.median);
 	int r = init_offsets(&sys, &trace);
 	VASSERT((r == 0) == (table_ok && g_fail == 0), "offsets are applied exactly when every table line names a host of the trace (and every stream accepts its offset)");
 	VASSERT(r == 0 || (r == -1 && g_err > 0), "a refusal is diagnosed");
